@@ -341,7 +341,7 @@ func (g *Gen) c05Datagram(kind int, i int, reqWire, secret []byte, reqCode int, 
 			signReply(w, reqAuth, secret)
 			return w
 		default: // an authentic 4096-byte reply followed by bytes the read buffer cuts off
-			return g.c05Datagram(13, i, reqWire, secret, code, prev)
+			return g.c05Datagram(13, i, reqWire, secret, reqCode, prev)
 		}
 	case 9: // replay of an earlier datagram
 		if len(prev) > 0 {
